@@ -445,7 +445,7 @@ func vfGenC14Seq(rt *rapid.T) vfC14SeqCase {
 		a := vfC05Act{Kind: "transfer", Outcome: rapid.SampledFrom([]string{"succeeded", "succeeded", "refused", "failed", "stopped", "stopped_ui", "sigint", "sigint", "forked"}).Draw(rt, "outcome"),
 			Upload: rapid.Bool().Draw(rt, "upload")}
 		// the end comes while the relays are still between the action and a slow server's configuration
-		a.Early = (a.Outcome == "stopped" || a.Outcome == "sigint") && rapid.IntRange(0, 2).Draw(rt, "early") == 0
+		a.Early = (a.Outcome == "stopped" || a.Outcome == "sigint" || a.Outcome == "stopped_ui") && rapid.IntRange(0, 2).Draw(rt, "early") == 0
 		cs.Acts = append(cs.Acts, a)
 	}
 	cs.Acts = append(cs.Acts, vfC05Act{Kind: "transfer", Outcome: "succeeded", Upload: rapid.Bool().Draw(rt, "lastupload")})
